@@ -110,14 +110,21 @@ def _rand_c06(rng, tier, sc0):
             if rng.random() < 0.3:
                 h.append({"op": "Adv", "dt": rng.choice([1, 2, 3600])})
             steps += h
+        if i % 5 == 4 and c.get("rot", True) and "use_ts" not in c:
+            # FileLogWriter::builder().use_utc(): infixes rendered in UTC (the shards run under different zones)
+            c["via"], c["utc"] = "flw", True
         out.append({"sc": sc0 + i, "cfg": c, "t0": G.boundary_t0(rng), "steps": steps, "origin": "rand"})
     return out
+
+
+ZONES = ["UTC", "IST-5:30", "VET4", "LINT-14", "DMO+07:59", "NPT-5:45"]
 
 
 def C06(tier, seed):
     mc = [("MCFlw.tla", "MCFlw_C06q.cfg" if tier == "quick" else "MCFlw_C06t.cfg", 8, 2400)]
     gen = [("MCFlw.tla", "MCFlw_C06gen.cfg" if tier == "quick" else "MCFlw_C06gent.cfg", None, None)]
     return F.run("C06", tier, seed, mc=mc, gen=gen, rand_fn=_rand_c06, mon="MonC06",
+                 shard_env=lambda i: {"TZ": ZONES[i % len(ZONES)]},
                  assumptions=A_COMMON + ["files are removed by the environment only while no logger runs"],
                  rule="(a) one maximal behaviour per distinct state of the bounded multi-run Flw model (up to 3 runs, "
                       "append flipped per run, forced rotations, restarts inside the same second and across seconds, "
@@ -189,6 +196,9 @@ def _rand_c09(rng, tier, sc0):
             if rng.random() < 0.4:
                 h.append({"op": "Adv", "dt": rng.choice([1, 60, 3600, day, 31 * day])})
             steps += h
+        if i % 4 == 3:
+            # FileLogWriter::builder().use_utc(): periods by the local clock, names rendered in UTC
+            c["via"], c["utc"] = "flw", True
         out.append({"sc": sc0 + i, "cfg": c, "t0": G.boundary_t0(rng), "steps": steps, "origin": "rand"})
     return out
 
@@ -1297,7 +1307,7 @@ def C03(tier, seed):
                     scens.append({"sc": len(scens) + 1, "kind": "sched", "out": "file", "cfg": c, "steps": ops,
                                   "lens": [12, 30], "origin": f"tlc:MCFlwConc_sched_{mode}"})
                     nsched += 1
-        nstress = 60 if tier == "quick" else 1500
+        nstress = 60 if tier == "quick" else 600
         for i in range(nstress):
             c = G.rand_cfg(rng, criteria=("size",), modes=("direct", "buf", "bufflush", "async", "async"))
             c["crlf"] = False
@@ -1313,7 +1323,7 @@ def C03(tier, seed):
             if out != "file" and c["mode"] == "bufflush":
                 c["mode"] = "buf"
             threads = rng.choice([2, 4, 8, 16])
-            per = rng.choice([20, 60, 150]) if tier == "quick" else rng.choice([100, 500, 2000])
+            per = rng.choice([20, 60, 150]) if tier == "quick" else rng.choice([60, 150, 400])
             pivots = [9, 12, 33, 63, 64, 65, c.get("cap", 64) - 1, c.get("cap", 64) + 1, c.get("mcapa", 32) + 1, 250]
             scens.append({"sc": len(scens) + 1, "kind": "stress", "out": out, "cfg": c, "threads": threads, "per": per,
                           "lens": [max(9, x) for x in rng.sample(pivots, 5)], "noise": rng.randrange(1, 2 ** 31),
@@ -1346,7 +1356,7 @@ def C03(tier, seed):
                "rule": "(a) every schedule of 2 threads x 2 records of FlwConc.tla (steps Format/Write resp. Format/Send; "
                        "direct, buffered, async) replayed through the schedule controller at the hook point between formatting "
                        "and the critical section / the channel send: the file order must be the order the specification "
-                       "predicts; (b) stress: 2-16 threads x 20-150 (quick) / 100-2000 (thorough) records, record lengths around "
+                       "predicts; (b) stress: 2-16 threads x 20-150 (quick) / 60-400 (thorough) records, record lengths around "
                        "buffer and pool capacities, size rotation under every naming, modes direct/buffered/buffer+flush/async "
                        "(pool 1-50, message capacity 8-200), outputs file, stdout, stderr (child process), seeded yield/sleep "
                        "noise at the hook points",
